@@ -334,6 +334,17 @@ for pname in ('chain', 'indep_priors', 'two_sims', 'two_params_named'):
 HARNESSES.append(H('rejection_chain', h_sampler_purity, dict(program='chain'),
                    bounds='Rejection n=2 batch_size=2 2 batches; native sequential vs reordering client (max_parallel 3), 3 histories'))
 
+# the same seeded sampler run on another client: a client that keeps several batches in computation and answers
+# readiness arbitrarily must return what the in-process sequential client returns (harness shared with C04)
+from harness.C04 import h_rejection_sched  # noqa: E402
+HARNESSES.append(H('rejection_threshold_same_on_a_client_with_batches_in_flight', h_rejection_sched,
+                   dict(bs=1, n=1, mode='threshold', K=4),
+                   bounds='Rejection threshold objective, batch_size 1, n=1, <=4 batches: native sequential client vs a client with '
+                          'max_parallel in {1,2,3} and solver-chosen readiness answers (<=6)'))
+HARNESSES.append(H('rejection_nsim_same_on_a_client_with_batches_in_flight', h_rejection_sched,
+                   dict(bs=2, n=2, mode='n_sim', K=2),
+                   bounds='Rejection n_sim objective, batch_size 2, n=2, <=2 batches: native vs scheduled client'))
+
 MANIFEST = {
     'level_text': 'Bounded symbolic execution with symbolic generator streams: for every value of every draw and every operation '
                   '(uninterpreted), the outputs of a seeded generate / batch computation / Rejection run are the same terms after '
